@@ -99,7 +99,8 @@ def gen_cases(rng, thorough):
                         ["scalar", "image", "mask"],
                         ["scalar", "image", "mask", "trace", "contour"],
                         ["scalar", "uint", "trace"]]),
-                    old_logs=old_logs, tables=tables)
+                    old_logs=old_logs, tables=tables,
+                    cmp5=rng.random() < 0.5)
 
     reps = 3 if thorough else 1
     for rep in range(reps):
@@ -173,7 +174,12 @@ def _write_input(path, spec_in):
         logs["dclab-compress"] = ["{", ' "old": 1', "}"]
         logs["dclab-condense"] = ["{", ' "old": 2', "}"]
     tables = {"tab": gen.small_table(rng)} if spec_in.get("tables") else None
-    gen.write_spec(path, spec, logs=logs, tables=tables)
+    kw = None
+    if spec_in.get("cmp5"):
+        import hdf5plugin
+        kw = dict(hdf5plugin.Zstd(clevel=5))
+    gen.write_spec(path, spec, logs=logs, tables=tables,
+                   compression_kwargs=kw)
 
 
 def _stale_output(path):
@@ -697,6 +703,8 @@ def _run(run):
             # the task failed on its own on this input (no fault injected):
             # not a protocol word; the property still has to hold
             run.count("task-failed-without-fault")
+            run.notes.append("case %d (%s) fails without a fault: %s" % (
+                idx, case["task"], info["err"][:200]))
             fails = []
             for i in range(nout):
                 if ro["out"][i] != 0 and not (
@@ -738,9 +746,20 @@ def _run(run):
         if fails:
             run.oracle_failure(cd, "; ".join(fails), None)
 
+    for task in TASK_CTOR:
+        oks = [i for c, i in zip(CASES, INFO)
+               if c["task"] == task and i["err"] is None]
+        if not oks:
+            errs = [i["err"] for c, i in zip(CASES, INFO)
+                    if c["task"] == task]
+            run.broken.append(("translator(C10)",
+                               "no fault-free run of task %s to take a "
+                               "trace from: %s" % (task, errs[:2])))
     _tick(run, "acceptance")
     natural_failures(run)
     _tick(run, "natural-failures")
+    strace_crosscheck(run)
+    _tick(run, "strace-crosscheck")
     # ---- 2. fault enumeration -------------------------------------------
     total_budget = 10 ** 9 if run.thorough else int(
         os.environ.get("VERIF_C10_BUDGET", "2600"))
@@ -889,6 +908,134 @@ def natural_job(job):
         pass
     shutil.rmtree(d, ignore_errors=True)
     return dict(job=job, failed=failed, fails=fails)
+
+
+# --------------------------------------------------------------------------
+# translator cross-check: system calls seen by strace vs recorded operations
+# --------------------------------------------------------------------------
+_SYS = re.compile(
+    r'^\d+\s+(openat|open|creat|rename|renameat|renameat2|unlink|unlinkat)'
+    r'\((.*)\)\s+=\s+(-?\d+)')
+
+
+def strace_child(argv_json):
+    """entry point of the traced subprocess"""
+    a = json.load(open(argv_json))
+    ct.install()
+    rec = ct.Recorder(a["w"])
+    ct.set_recorder(rec)
+    err = None
+    try:
+        run_task(a["case"], a["lay"], a["w"])
+    except BaseException as e:  # noqa
+        err = repr(e)
+    ct.set_recorder(None)
+    with open(a["out"], "w") as fd:
+        json.dump(dict(err=err, ops=[(o[0], o[1], o[2]) for o in rec.ops]),
+                  fd)
+
+
+def _dedupe(seq):
+    out = []
+    for x in seq:
+        if not out or out[-1] != x:
+            out.append(x)
+    return out
+
+
+def strace_job(idx):
+    import subprocess
+    case, info = CASES[idx], INFO[idx]
+    d = _copy_template(idx)
+    w = os.path.realpath(os.path.join(d, "w"))
+    arg = os.path.join(d, "arg.json")
+    outp = os.path.join(d, "rec.json")
+    log = os.path.join(d, "strace.log")
+    with open(arg, "w") as fd:
+        json.dump(dict(case=case, lay=info["lay"], w=w, out=outp), fd)
+    cmd = ["strace", "-f", "-qq", "-s", "4096", "-o", log, "-e",
+           "trace=openat,open,creat,rename,renameat,renameat2,unlink,"
+           "unlinkat", sys.executable, "-W", "ignore", "-c",
+           "import sys; from harness import c10; c10.strace_child(sys.argv[1])",
+           arg]
+    try:
+        r = subprocess.run(cmd, capture_output=True, text=True, timeout=600)
+    except Exception as e:
+        shutil.rmtree(d, ignore_errors=True)
+        return dict(idx=idx, skipped="strace not usable: %r" % (e,))
+    if not os.path.exists(outp) or not os.path.exists(log):
+        shutil.rmtree(d, ignore_errors=True)
+        return dict(idx=idx, skipped="strace run failed: %s" %
+                    (r.stderr or "")[-300:])
+    rec = json.load(open(outp))
+    want = []
+    for kind, p, p2 in rec["ops"]:
+        if kind in ("open-w", "open-a"):
+            want.append(("wopen", os.path.relpath(p, w)))
+        elif kind == "rename":
+            want.append(("rename", os.path.relpath(p, w),
+                         os.path.relpath(p2, w)))
+        elif kind == "unlink":
+            want.append(("unlink", os.path.relpath(p, w)))
+    seen = []
+    for line in open(log, errors="replace"):
+        m = _SYS.match(line)
+        if not m or int(m.group(3)) < 0:
+            continue
+        call, args = m.group(1), m.group(2)
+        paths = [os.path.realpath(x) for x in re.findall(r'"((?:[^"\\]|\\.)*)"',
+                                                         args)]
+        paths = [x for x in paths if x.startswith(w + os.sep)]
+        if not paths:
+            continue
+        if call in ("openat", "open", "creat"):
+            if call == "creat" or re.search(
+                    r"O_WRONLY|O_RDWR|O_CREAT|O_TRUNC|O_APPEND", args):
+                seen.append(("wopen", os.path.relpath(paths[0], w)))
+        elif call.startswith("rename"):
+            if len(paths) == 2:
+                seen.append(("rename", os.path.relpath(paths[0], w),
+                             os.path.relpath(paths[1], w)))
+            else:
+                seen.append(("rename-across", [os.path.relpath(x, w)
+                                               for x in paths]))
+        else:
+            if "AT_REMOVEDIR" in args:
+                continue
+            seen.append(("unlink", os.path.relpath(paths[0], w)))
+    seen = [x for x in seen if x[1] not in ("arg.json", "rec.json")]
+    shutil.rmtree(d, ignore_errors=True)
+    want, seen = _dedupe(want), _dedupe(seen)
+    return dict(idx=idx, ok=(want == seen), want=want, seen=seen,
+                err=rec["err"])
+
+
+def strace_crosscheck(run):
+    """The wrapped entry points must account for every system call that
+    creates, opens for writing, renames or removes a file of the task."""
+    if shutil.which("strace") is None:
+        run.notes.append("strace not installed: translator cross-check "
+                         "skipped")
+        return
+    idxs = list(range(len(CASES)))
+    if not run.thorough:
+        idxs = run.rng.sample(idxs, min(2, len(idxs)))
+    for res in _POOL.map(strace_job, idxs, chunksize=1):
+        if "skipped" in res:
+            run.notes.append("strace cross-check of case %d skipped: %s" % (
+                res["idx"], res["skipped"]))
+            run.count("strace-skipped")
+            continue
+        run.count("strace-crosscheck")
+        if not res["ok"]:
+            diff = [(a, b) for a, b in zip(res["want"] + [None] * 99,
+                                           res["seen"] + [None] * 99)
+                    if a != b][:3]
+            run.broken.append((
+                "translator(C10)",
+                "system calls on the task's files differ from the recorded "
+                "operations for %s (recorded, strace): %s" % (
+                    CASES[res["idx"]]["task"], diff)))
 
 
 # --------------------------------------------------------------------------
